@@ -9,7 +9,8 @@ ROOT = os.path.dirname(os.path.dirname(os.path.abspath(__file__)))
 S = os.path.join(ROOT, 'seeded')
 WAVES = {'a': 'first wave', 'b': 'second wave (avoid the obvious mutation)', 'c': 'third wave (told a competent harness exists)',
          'd': 'fourth wave (plain wording again, checks frozen during evaluation)',
-         'e': 'fifth wave (audit of the unmodified code plus changes in dimensions a harness author would not think of)'}
+         'e': 'fifth wave (audit of the unmodified code plus changes in dimensions a harness author would not think of)',
+         'f': 'sixth wave (review of the 26 repairs and a second audit, then two changes)'}
 
 
 NOTES = {'C06-d1': 'at its first evaluation it was reported through the rule `negotiated-but-not-compressed`, which was then removed as '
